@@ -112,3 +112,28 @@ def trace_batches(ctx, corpus, cfg, n, batches, prop=None, also=()):
                 ctx.add_violation("%s: %s | script: %s" % (v["prop"], v["what"], lines[0]["text"].replace("\n", " ")[:300]), rp)
             else:
                 raise Infra("candidate violation did not reproduce: %s" % v)
+
+
+def allot_apalache(ctx, vectors):
+    """Apalache: for each fixed portion vector (numerators over a common denominator) the C06 lemmas hold for all n in Nat"""
+    tmpl = open(os.path.join(os.path.dirname(os.path.dirname(os.path.abspath(__file__))), "spec", "AllotApa.tla.tmpl")).read()
+    for nums, L in vectors:
+        k = len(nums)
+        defs, floors = [], []
+        for i, a in enumerate(nums, 1):
+            defs.append("F%d == (n * %d) \\div L" % (i, a))
+        for i in range(1, k + 1):
+            defs.append("S%d == F%d + (IF %d <= Left THEN 1 ELSE 0)" % (i, i, i))
+            floors.append("       /\\ L * F%d <= n * %d /\\ n * %d < L * (F%d + 1)" % (i, nums[i - 1], nums[i - 1], i))
+        # Left must be defined before S_i: order the definitions F*, Left, S*
+        fdefs = [d for d in defs if d.startswith("F")]
+        sdefs = [d for d in defs if d.startswith("S")]
+        text = tmpl.replace("@NUMS@", str(nums)).replace("@L@", str(L)).replace("@K@", str(k))
+        text = text.replace("@DEFS@\nLeft == n - (@SUMF@)", "\n".join(fdefs) + "\nLeft == n - (%s)\n" % " + ".join("F%d" % i for i in range(1, k + 1)) + "\n".join(sdefs))
+        text = text.replace("@SUMS@", " + ".join("S%d" % i for i in range(1, k + 1)))
+        text = text.replace("@FLOORS@", "\n".join(floors))
+        text = text.replace("@PREFIX@", "\n".join("       /\\ (S%d = F%d + 1 => S%d = F%d + 1)" % (j, j, i, i) for i in range(1, k + 1) for j in range(i + 1, k + 1)))
+        ok, out = ctx.apalache(text, "AllotApa")
+        if not ok:
+            raise Infra("Apalache refuted the allotment lemma for %s/%s (specification error)" % (nums, L))
+        ctx.cov["obligations_unbounded_n"] = ctx.cov.get("obligations_unbounded_n", 0) + 1
